@@ -898,23 +898,33 @@ def run(chk):
     chk.cov["trusted_base"] = [
         "Lean 4.33 kernel; axioms propext, Classical.choice, Quot.sound (audited per run via #print axioms)",
         "hand-written model lean/Bptk/Core/C10.lean of BinaryOperator.__init__ checks, resolve_dimensions, is_named/index_to_string, "
-        "Element._handle_arrayed, the arrayed branches of term(), DotOperator.term and the Array*Operator terms; tied to /repo by the exhaustive "
-        "token-level correspondence of this check",
+        "Element._handle_arrayed (generic and Stock branch), clone_with_index/arrayed_term at every level of an operand tree, the arrayed branches of term(), "
+        "DotOperator.term, Stock.build_function_string and the Array*Operator terms; tied to /repo by the token-level correspondence of this check "
+        "(exhaustive on flat pairs to K and on depth-2 nestings over a leaf set, seeded beyond); expandE_flat proves the nested model equals the flat one on flat operands",
         "harness/pyfrag.py lexer (Python tokenize) and CPython's expression grammar = A1 (Bptk.Proofs.PyFrag.parse_print)",
         "numpy: np.mean/np.median/np.std/sorted are opaque functions of the row-major element list (agg_args); the reference check calls numpy itself",
     ]
     chk.assumptions = [
-        "target element is a fresh converter (the Stock branch of _handle_arrayed is not modelled)",
-        "rows of a matrix have the same keys (named matrices with differing row keys are outside the model)",
-        "operands are numbers, scalar elements or arrayed elements; operator operands (nesting) are covered by the numpy reference check only",
-        "arr_sum/arr_prod with the default dimension argument '*'",
+        "targets: a fresh converter, a fresh stock, an arrayed stock (Stock branch of _handle_arrayed: operator equations and arrayed-element equations); "
+        "an arrayed stock whose shape differs from the equation's is assigned where the keys exist and is not a refusal (counted in stock_targets.stock_shape_differs_accepted)",
+        "rows of a matrix have the same keys in the Lean model; named matrices with differing row keys are covered by the numpy oracle only (ragged_named_matrices)",
+        "operands are numbers, elements or operators over such operands to any depth (+ - * / number*array, unary minus, dot with an element on the left — the DSL's API); "
+        "functions (If, max, lookup, ...) as operands are outside",
+        "a nested operand with numeric index NAMES inside dot is read by key; alphabetic names are used in generated trees",
         "arr_size is the documented vector size (first dimension, len(A)), not numpy's total size",
+        "an evaluation error (ZeroDivisionError where numpy continues with inf/nan) is 'no value', not a wrong value",
     ]
     chk.cov["rule"] = (f"all pairs of operands from {{3 number literals, scalar element, vectors 1..{K}, matrices up to {K}x{K}, named vectors (same names / "
                        f"permuted / one differing name / numeric names), named matrices}} x {{+ - * / dot}} (both orders arise from the pair enumeration; number*array = "
                        "NumericalMultiplication), unary minus, and every aggregate (sum prod mean median std size, rank for k in {-2..2, count-1..count+3}) on every shape; "
                        "per case: token equality of every element's function string with the model's output, acceptance equality, values at t=1 against numpy by key, "
-                       "mismatching shapes/index names must raise; plus fixed and seeded nested expressions against numpy. non-trivial = at least one arrayed operand")
+                       "mismatching shapes/index names must raise; plus fixed and seeded nested expressions against numpy. non-trivial = at least one arrayed operand. "
+                       "Wave 2: every pair / aggregate again under value tables {all zero, zero row, alternating zeros, -0.0, all equal, mixed 0.0/-0.0/duplicates, equal negatives} x "
+                       "{constants, converters} (3 of 15 per case rotating in quick, all in thorough): equations token-identical to the base run, values = numpy; "
+                       "operand TREES in the Lean model: all depth-2 one-sided nestings over a leaf set + typed random trees of depth 2-3 (2-4 thorough), token-exact against expandE, "
+                       "values against an independent numpy evaluator with the strict shape/key rule; Stock targets: flat pairs, trees and arrayed-element equations on fresh and arrayed "
+                       "stocks of equal / larger / smaller / other-rank / named shapes: full stock function strings against stockFs, values at t=2 = initial + 2*entry; "
+                       "arr_sum/arr_prod with dimension 0..3 on every shape; ragged named matrices against the entry list")
     chk.cov["exhaustive"] = True
     # ---- real side + requests
     req, real, meta = [], [], []
@@ -1273,8 +1283,14 @@ def replay(path):
     kind = r.get("kind")
     if kind == "binary":
         da, db = _tup(r["a"]), (_tup(r["b"]) if r["b"] is not None else None)
-        line, vals, exc, va, vb = run_real(r["form"], da, db, r.get("salt", 0))
-        exp = spec(r["form"], da, db, va, vb)
+        line, vals, exc, va, vb = run_real(r["form"], da, db, r.get("salt", 0), r.get("elem_kind"))
+        import numpy as np
+        with np.errstate(all="ignore"):
+            exp = spec(r["form"], da, db, va, vb)
+        if "correspondence" in r:           # value-dependent code generation: compare with the base run's equations
+            base = run_real(r["form"], da, db)[0]
+            print("case:", case_text(r["form"], da, db), "value table", r.get("salt"), r.get("elem_kind")); print("equations:", line[:300]); print("for other values:", base[:300])
+            return 1 if line != base else 0
         print("case:", case_text(r["form"], da, db)); print("operands:", va, vb)
         print("implementation:", line[:200], vals, exc); print("numpy:", exp)
         if line == "none":
@@ -1284,8 +1300,14 @@ def replay(path):
         return 1 if compare_values(vals, exp, exact=(r["form"] != "div")) else 0
     if kind == "agg":
         d = _tup(r["a"])
-        line, vals, exc, va = run_real_agg(r["agg"], d, r.get("salt", 0))
-        exp = spec_agg(r["agg"], d, va)
+        line, vals, exc, va = run_real_agg(r["agg"], d, r.get("salt", 0), r.get("elem_kind", "converter"), r.get("dim"))
+        import numpy as np
+        with np.errstate(all="ignore"):
+            exp = spec_agg(r["agg"], d, va)
+        if "correspondence" in r:
+            base = run_real_agg(r["agg"], d)[0]
+            print("case:", r["agg"], describe(d), va); print("equation:", line[:300]); print("for other values:", base[:300])
+            return 1 if line != base else 0
         print("case:", r["agg"], describe(d), va); print("implementation:", line[:200], vals, exc); print("numpy:", exp)
         if line == "none" or exp is None:
             return 0
@@ -1295,5 +1317,39 @@ def replay(path):
         d = run_nested(t, leaves)
         print("expression:", tree_text(t)); print("first difference (None = rejected, False = agrees):", d)
         return 1 if d else 0
+    if kind == "tree":
+        t = _tup(r["tree"])
+        line, got, exc, vals = run_tree(t, r.get("salt", 0), r.get("elem_kind", "converter"))
+        print("equation:", tree_show(t)); print("leaves:", vals); print("implementation:", line[:300], got, exc)
+        if "correspondence" in r:
+            base = run_tree(t)[0]
+            print("for other values:", base[:300])
+            return 1 if line != base else 0
+        try:
+            _, _, exp = spec_tree(t, vals)
+        except Mismatch as mm:
+            print("numpy: operands do not match:", mm)
+            return 1 if line != "none" else 0
+        print("numpy:", {k: float(v) for k, v in exp.items()})
+        if line == "none":
+            return 0
+        return 1 if compare_values(got, {k: float(v) for k, v in exp.items()}, exact=False) else 0
+    if kind == "stock":
+        t, sd = _tup(r["tree"]), _tup(r["stock"])
+        line, got, inits, exc, vals = run_stock(t, sd, r.get("salt", 0))
+        print("case: stock", describe(sd), ":=", tree_show(t)); print("leaves:", vals); print("implementation:", line[:300], got, exc)
+        if line == "none":
+            return 0
+        try:
+            exp = {k: float(v) for k, v in (vals[t[1]] if t[0] == "el" else spec_tree(t, vals)[2]).items()}
+        except Mismatch as mm:
+            print("numpy: operands do not match:", mm)
+            return 1
+        print("expected at t=2 (initial value + 2·entry):", {k: inits[k] + 2.0 * exp[k] for k in got if k in exp})
+        return 1 if any(k in exp and not close(got[k], inits[k] + 2.0 * exp[k], exact=False) for k in got) else 0
+    if kind == "ragged":
+        acc, val = run_ragged(r["agg"], r["rows"])
+        print("case:", r["agg"], r["rows"], "->", acc, val, "expected", r.get("expected"))
+        return 1 if acc and not close(val, r.get("expected"), exact=False) else 0
     print("replay names no input:", r)
     return 1
